@@ -18,6 +18,7 @@ import (
 // TwinScript: a history run in two worlds; world 1 additionally receives one rejected input at op index At.
 type TwinScript struct {
 	Cfg SessCfg `json:"cfg"`
+	Pol int     `json:"pol,omitempty"` // extra policy bits for both parties (e.g. require-encryption, which queues texts)
 	Ops []SOp   `json:"ops"`
 	At  int     `json:"at"` // the rejected input is delivered before op At (modulo len+1)
 	R   SOp     `json:"r"`  // how the rejected input is derived: W receiver, I source selector, X kind, L position, F value
@@ -207,7 +208,7 @@ func deriveRejected(s *Sess, r SOp) ([]byte, string) {
 
 func runTwin(sc *TwinScript) *sim.Outcome {
 	o := &sim.Outcome{}
-	worlds := [2]*Sess{newSess(&SessScript{Cfg: sc.Cfg}, &sim.Outcome{}), newSess(&SessScript{Cfg: sc.Cfg}, &sim.Outcome{})}
+	worlds := [2]*Sess{newSess(&SessScript{Cfg: sc.Cfg, PolA: sc.Pol, PolB: sc.Pol}, &sim.Outcome{}), newSess(&SessScript{Cfg: sc.Cfg, PolA: sc.Pol, PolB: sc.Pol}, &sim.Outcome{})}
 	for _, s := range worlds {
 		if !s.Handshake(sc.Cfg.Starter) {
 			o.Discard = true
@@ -333,6 +334,9 @@ func TestProp_C06_Twin(t *testing.T) {
 	rapid.Check(t, func(rt *rapid.T) {
 		sc := &TwinScript{Cfg: genSessCfg(rt)}
 		sc.Cfg.FragA, sc.Cfg.FragB = 0, 0
+		if rapid.IntRange(0, 3).Draw(rt, "req") == 0 {
+			sc.Pol = sim.PolRequire
+		}
 		n := rapid.IntRange(3, 30).Draw(rt, "nops")
 		for i := 0; i < n; i++ {
 			sc.Ops = append(sc.Ops, genSOp(rt, kinds, 200))
@@ -351,8 +355,15 @@ func TestProp_C06_AKEStates(t *testing.T) {
 	idx := 0
 	for _, v := range []int{3, 2} {
 		for starter := 0; starter < 2; starter++ {
-			for k := 0; k <= 5; k++ {
-				ops := []SOp{{K: "end", W: 0}, {K: "flush"}, {K: "end", W: 1}, {K: "age", W: 0}, {K: "age", W: 1}, {K: "query", W: starter}}
+			for kk := 0; kk <= 11; kk++ {
+				k, pol := kk%6, 0
+				start := SOp{K: "query", W: starter}
+				if kk >= 6 {
+					// the exchange is started by a Send under the require-encryption policy: a text is queued meanwhile
+					pol = sim.PolRequire
+					start = SOp{K: "send", W: starter, L: 6}
+				}
+				ops := []SOp{{K: "end", W: 0}, {K: "flush"}, {K: "end", W: 1}, {K: "age", W: 0}, {K: "age", W: 1}, start}
 				for i := 0; i < k; i++ {
 					d := starter
 					if i%2 == 1 {
@@ -373,7 +384,7 @@ func TestProp_C06_AKEStates(t *testing.T) {
 								if idx%sn != si {
 									continue
 								}
-								sc := &TwinScript{Cfg: SessCfg{V: v, SeedA: 1700, SeedB: 1801, KeyA: 0, KeyB: 3}, Ops: ops, At: at, R: SOp{W: rcv, I: src, X: x, L: l, F: l % 5}}
+								sc := &TwinScript{Cfg: SessCfg{V: v, SeedA: 1700, SeedB: 1801, KeyA: 0, KeyB: 3}, Pol: pol, Ops: ops, At: at, R: SOp{W: rcv, I: src, X: x, L: l, F: l % 5}}
 								sim.Judge(t, "C06akestates", sc)
 							}
 						}
